@@ -186,6 +186,19 @@ func afPrelude() []afCase {
 		so("GET", &afSign{URI: "https://app.x.io/\"><script>alert(1)</script>"}, "sess", okR),
 		so("PUT", sgf(), "sess", okR),
 	}
+	// the same parameter in the query string *and* in the urlencoded body: every reader must take the same one
+	split := func(sg *afSign, q, f [][2]string) afStep {
+		s := so("POST", sg, "sess", okR)
+		s.Query, s.Form = q, f
+		return s
+	}
+	outs = append(outs,
+		split(sgq(), nil, [][2]string{{"redirect_uri", "https://evil.io/phish"}}),
+		split(sgf(), [][2]string{{"redirect_uri", "https://evil.io/phish"}}, nil),
+		split(sgq(), nil, [][2]string{{"redirect_uri", "https://other.x.io/"}}),
+		split(sgq(), nil, [][2]string{{"sig", "AAAA"}, {"ts", "1"}}),
+		split(sgf(), [][2]string{{"sig", "AAAA"}, {"ts", "1"}}, nil),
+	)
 	okOut := afStep{Slug: "okta", Endpoint: "sign_out", Method: "POST", Sign: sgf(), Cookie: "sess", Sess: sess(nil), Revoke: afIdP{Kind: "status", Status: 400, ErrDesc: "The token is invalid or expired"}}
 	outs = append(outs, okOut)
 	// sign out for real, then reuse of the old authenticator cookie
@@ -325,6 +338,21 @@ func init() {
 				}
 				if rng.Intn(10) == 0 {
 					s.User = afIdP{Kind: "ok", Email: emails[rng.Intn(len(emails))], Verified: rng.Intn(3) > 0}
+				}
+				if s.Sign != nil && rng.Intn(8) == 0 {
+					// duplicate a signed parameter in the other place (query vs body)
+					extra := [][2]string{{"redirect_uri", schemes[rng.Intn(2)] + hosts[rng.Intn(len(hosts))] + "/dup"}}
+					if rng.Intn(3) == 0 {
+						extra = [][2]string{{"sig", "AAAA"}, {"ts", "1"}}
+					}
+					if s.Sign.In == "form" {
+						s.Query = append(s.Query, extra...)
+					} else {
+						s.Form = append(s.Form, extra...)
+						if rng.Intn(2) == 0 {
+							s.Method = "POST"
+						}
+					}
 				}
 				if rng.Intn(12) == 0 {
 					if s.Headers == nil {
